@@ -1,12 +1,24 @@
 //go:build verif
 
+// verif-c27: correspondence + direct oracles for PromQL aggregation operators, over-time functions and reduction
+// (push-down) rules.  Every `eval` op is one Engine run (parser → NewEvaluator → reduction rules → querySeries →
+// functions.go → exec) of the REAL engine against an in-memory promql.Handler whose QuerySeries pre-aggregates
+// generated one-second events the way internal/api does (real tsValues.merge / tsValues.value through an accessor).
+//
+// Oracles on the real outputs (independent of the Lean model):
+//
+//	def-*     the engine-side operators above the storage query equal their definitions recomputed with big.Rat
+//	          from the storage answer (missing points excluded; window = the points of the selected range)
+//	reduce-*  an expression a reduction rule rewrites into a storage query equals the same expression evaluated by
+//	          the engine operators alone (selector wrapped in `(m + 0)`, which no rule matches) over the underlying
+//	          one-second series
 package main
 
 import (
 	"context"
 	"fmt"
 	"math"
-	"os"
+	"math/big"
 	"sort"
 	"strings"
 
@@ -14,29 +26,41 @@ import (
 	"github.com/VKCOM/statshouse/internal/data_model"
 	"github.com/VKCOM/statshouse/internal/format"
 	"github.com/VKCOM/statshouse/internal/promql"
+	"github.com/VKCOM/statshouse/internal/promql/parser"
+	"github.com/VKCOM/statshouse/internal/verifx"
 )
 
-type row struct {
+// ---------------------------------------------------------------- storage stub
+
+type event struct {
 	series int
 	sec    int64
-	val    float64
+	val    int64
+}
+
+type capSeries struct {
+	tags [][2]int64
+	vals []float64
 }
 
 type store struct {
-	metric *format.MetricMetaValue
-	tags   [][3]int64 // series -> values of tags 1,2,3
-	rows   []row
-	log    []string
+	metric  *format.MetricMetaValue
+	tags    [][3]int64
+	events  []event
+	queries int
+	last    []capSeries // answer of the last QuerySeries
+	lastQ   string
+	inexact bool
 }
 
-func (s *store) GetHostName(hostID int32) string   { return "" }
-func (s *store) GetHostName64(hostID int64) string { return "" }
+func (s *store) GetHostName(int32) string   { return "" }
+func (s *store) GetHostName64(int64) string { return "" }
 func (s *store) GetTagValue(q promql.TagValueQuery) string {
 	return fmt.Sprintf("v%d", q.TagValueID)
 }
-func (s *store) GetTagValueID(q promql.TagValueIDQuery) (int64, error) { return 0, promql.ErrNotFound }
-func (s *store) GetTagFilter(metric *format.MetricMetaValue, tagIndex int, tagValue string) (data_model.TagValue, error) {
-	return data_model.TagValue{}, fmt.Errorf("no filters")
+func (s *store) GetTagValueID(promql.TagValueIDQuery) (int64, error) { return 0, promql.ErrNotFound }
+func (s *store) GetTagFilter(*format.MetricMetaValue, int, string) (data_model.TagValue, error) {
+	return data_model.TagValue{}, fmt.Errorf("no filters in this harness")
 }
 func (s *store) MatchMetrics(f *data_model.QueryFilter) error {
 	if f.MetricMatcher.Matches(s.metric.Name) {
@@ -44,18 +68,76 @@ func (s *store) MatchMetrics(f *data_model.QueryFilter) error {
 	}
 	return nil
 }
-func (s *store) QueryTagValueIDs(ctx context.Context, qry promql.TagValuesQuery) ([]int64, error) {
+func (s *store) QueryTagValueIDs(context.Context, promql.TagValuesQuery) ([]int64, error) {
 	return nil, nil
 }
 func (s *store) Alloc(n int) *[]float64 { v := make([]float64, n); return &v }
-func (s *store) Free(*[]float64)       {}
-func (s *store) Tracef(format string, a ...any) {
+func (s *store) Free(*[]float64)        {}
+func (s *store) Tracef(string, ...any)  {}
+
+func whatName(w promql.DigestWhat) string { return w.String() }
+
+// exact value of `what` for the events of one (group, bucket), by definition
+func exactWhat(w promql.DigestWhat, evs []int64, qstep, lstep int64) *big.Rat {
+	n := big.NewRat(int64(len(evs)), 1)
+	sum := new(big.Rat)
+	mn, mx := evs[0], evs[0]
+	sq := new(big.Rat)
+	for _, v := range evs {
+		sum.Add(sum, big.NewRat(v, 1))
+		sq.Add(sq, new(big.Rat).Mul(big.NewRat(v, 1), big.NewRat(v, 1)))
+		if v < mn {
+			mn = v
+		}
+		if v > mx {
+			mx = v
+		}
+	}
+	switch w {
+	case promql.DigestCount:
+		return n.Mul(n, big.NewRat(qstep, lstep))
+	case promql.DigestCountSec:
+		return n.Mul(n, big.NewRat(1, lstep))
+	case promql.DigestSum:
+		return sum.Mul(sum, big.NewRat(qstep, lstep))
+	case promql.DigestSumSec:
+		return sum.Mul(sum, big.NewRat(1, lstep))
+	case promql.DigestAvg:
+		return sum.Quo(sum, n)
+	case promql.DigestMin:
+		return big.NewRat(mn, 1)
+	case promql.DigestMax:
+		return big.NewRat(mx, 1)
+	case promql.DigestStdVar:
+		if len(evs) < 2 {
+			return new(big.Rat)
+		}
+		x := new(big.Rat).Mul(sum, sum)
+		x.Quo(x, n)
+		x.Sub(sq, x)
+		x.Quo(x, new(big.Rat).Sub(n, big.NewRat(1, 1)))
+		if x.Sign() < 0 {
+			return new(big.Rat)
+		}
+		return x
+	}
+	return nil
 }
 
-func (s *store) QuerySeries(ctx context.Context, qry *promql.SeriesQuery) (promql.Series, func(), error) {
+func (s *store) QuerySeries(_ context.Context, qry *promql.SeriesQuery) (promql.Series, func(), error) {
 	ts := qry.Timescale
 	lodStep := ts.LODs[len(ts.LODs)-1].Step
-	s.log = append(s.log, fmt.Sprintf("whats=%v by=%v range=%d", qry.Whats, qry.GroupBy, qry.Range))
+	qstep := qry.Range
+	if qstep == 0 {
+		qstep = ts.Step
+	}
+	if qstep == 0 {
+		qstep = lodStep
+	}
+	s.queries++
+	what := qry.Whats[0].Digest
+	s.lastQ = fmt.Sprintf("what=%s by=%v range=%d", whatName(what), qry.GroupBy, qry.Range)
+	s.last = nil
 	res := promql.Series{Meta: promql.SeriesMeta{Metric: qry.Metric}}
 	by := map[int]bool{}
 	for _, x := range qry.GroupBy {
@@ -85,9 +167,12 @@ func (s *store) QuerySeries(ctx context.Context, qry *promql.SeriesQuery) (promq
 		any := false
 		for x, t := range ts.Time {
 			var rs []api.VerifC27Row
-			for _, r := range s.rows {
-				if member[r.series] && t <= r.sec && r.sec < t+lodStep {
-					rs = append(rs, api.VerifC27Row{Count: 1, Sum: r.val, Min: r.val, Max: r.val, SumSquare: r.val * r.val})
+			var evs []int64
+			for _, e := range s.events {
+				if member[e.series] && t <= e.sec && e.sec < t+lodStep {
+					v := float64(e.val)
+					rs = append(rs, api.VerifC27Row{Count: 1, Sum: v, Min: v, Max: v, SumSquare: v * v})
+					evs = append(evs, e.val)
 				}
 			}
 			if len(rs) == 0 {
@@ -95,7 +180,11 @@ func (s *store) QuerySeries(ctx context.Context, qry *promql.SeriesQuery) (promq
 				continue
 			}
 			any = true
-			vals[x] = api.VerifC27MergeValue(rs, qry.Whats[0].Digest, qry.Range, lodStep)
+			vals[x] = api.VerifC27MergeValue(rs, what, lodStepOr(ts.Step, qry.Range, lodStep), lodStep)
+			if ex := exactWhat(what, evs, qstep, lodStep); ex == nil || math.IsNaN(vals[x]) || math.IsInf(vals[x], 0) ||
+				new(big.Rat).SetFloat64(vals[x]).Cmp(ex) != 0 {
+				s.inexact = true
+			}
 		}
 		if !any {
 			continue
@@ -103,6 +192,7 @@ func (s *store) QuerySeries(ctx context.Context, qry *promql.SeriesQuery) (promq
 		v := vals
 		res.Data = append(res.Data, promql.SeriesData{Values: &v, What: qry.Whats[0]})
 		x := len(res.Data) - 1
+		var ctags [][2]int64
 		for j := 0; j < 3; j++ {
 			if by[j+1] {
 				res.AddTagAt(x, &promql.SeriesTag{
@@ -112,57 +202,1229 @@ func (s *store) QuerySeries(ctx context.Context, qry *promql.SeriesQuery) (promq
 					Name:   qry.Metric.Tags[j+1].Name,
 					Value:  k[j],
 				})
+				ctags = append(ctags, [2]int64{int64(j + 1), k[j]})
 			}
 		}
+		s.last = append(s.last, capSeries{tags: ctags, vals: append([]float64(nil), vals...)})
 	}
 	res.Meta.Total = len(res.Data)
 	return res, func() {}, nil
 }
 
-func fmtVal(v float64) string {
+// the step requestHandler.QuerySeries hands to copyRowValuesAt: qry.Range, else Timescale.Step (0 → row step there)
+func lodStepOr(tsStep, rng, lod int64) int64 {
+	if rng != 0 {
+		return rng
+	}
+	return tsStep
+}
+
+// ---------------------------------------------------------------- expressions
+
+type node struct {
+	kind    string // agg q topk botk ot qot paren brk
+	op      string
+	qn, qd  int64
+	k       int
+	without bool
+	labels  []int
+	rng     int64
+	sub     bool
+}
+
+var labelName = []string{"z", "a", "b", "c"}
+
+func (n node) labelsTok() string {
+	if len(n.labels) == 0 {
+		return "-"
+	}
+	ss := make([]string, len(n.labels))
+	for i, l := range n.labels {
+		ss[i] = fmt.Sprint(l)
+	}
+	return strings.Join(ss, ".")
+}
+
+func (n node) woTok() string {
+	if n.without {
+		return "wo"
+	}
+	return "by"
+}
+
+func subTok(b bool) string {
+	if b {
+		return "s"
+	}
+	return "m"
+}
+
+func (n node) token() string {
+	switch n.kind {
+	case "agg":
+		return fmt.Sprintf("agg:%s:%s:%s", n.op, n.woTok(), n.labelsTok())
+	case "q":
+		return fmt.Sprintf("q:%s:%s:%s", big.NewRat(n.qn, n.qd).RatString(), n.woTok(), n.labelsTok())
+	case "topk", "botk":
+		return fmt.Sprintf("%s:%d:%s:%s", n.kind, n.k, n.woTok(), n.labelsTok())
+	case "ot":
+		return fmt.Sprintf("ot:%s:%d:%s", n.op, n.rng, subTok(n.sub))
+	case "qot":
+		return fmt.Sprintf("qot:%s:%d:%s", big.NewRat(n.qn, n.qd).RatString(), n.rng, subTok(n.sub))
+	}
+	return n.kind
+}
+
+func (n node) grouping() string {
+	names := make([]string, len(n.labels))
+	for i, l := range n.labels {
+		names[i] = labelName[l]
+	}
+	kw := "by"
+	if n.without {
+		kw = "without"
+	}
+	return fmt.Sprintf("%s (%s)", kw, strings.Join(names, ","))
+}
+
+func qstr(n node) string {
+	return fmt.Sprint(float64(n.qn) / float64(n.qd)) // dyadic: prints exactly
+}
+
+func (n node) wrap(inner string, innerIsSelector bool) string {
+	rangeOf := func() string {
+		if n.sub {
+			return fmt.Sprintf("(%s)[%ds:]", inner, n.rng)
+		}
+		return fmt.Sprintf("%s[%ds]", inner, n.rng)
+	}
+	switch n.kind {
+	case "agg":
+		return fmt.Sprintf("%s %s (%s)", n.op, n.grouping(), inner)
+	case "q":
+		return fmt.Sprintf("quantile %s (%s, %s)", n.grouping(), qstr(n), inner)
+	case "topk":
+		return fmt.Sprintf("topk %s (%d, %s)", n.grouping(), n.k, inner)
+	case "botk":
+		return fmt.Sprintf("bottomk %s (%d, %s)", n.grouping(), n.k, inner)
+	case "ot":
+		return fmt.Sprintf("%s_over_time(%s)", n.op, rangeOf())
+	case "qot":
+		return fmt.Sprintf("quantile_over_time(%s, %s)", qstr(n), rangeOf())
+	case "paren":
+		return "(" + inner + ")"
+	case "brk":
+		return "(" + inner + " + 0)"
+	}
+	panic("kind")
+}
+
+func selString(what string) string {
+	if what == "" {
+		return "m"
+	}
+	return fmt.Sprintf("m{__what__=%q}", what)
+}
+
+// chain is root first; returns the PromQL text of every prefix (bottom-up): pre[i] = text of nodes bottom..i
+func chainStrings(what string, chain []node) (string, []string) {
+	cur := selString(what)
+	var pre []string
+	for i := len(chain) - 1; i >= 0; i-- {
+		cur = chain[i].wrap(cur, i == len(chain)-1)
+		pre = append(pre, cur)
+	}
+	return cur, pre
+}
+
+func chainTokens(what string, chain []node) string {
+	w := what
+	if w == "" {
+		w = "-"
+	}
+	toks := []string{"what=" + w}
+	for _, n := range chain {
+		toks = append(toks, n.token())
+	}
+	return strings.Join(toks, " ")
+}
+
+// ---------------------------------------------------------------- reference evaluation (definitions, big.Rat)
+
+type rser struct {
+	tags [][2]int64
+	vals []*big.Rat // nil = missing
+}
+
+type flags struct {
+	inexact bool
+	tie     bool
+}
+
+func exactRat(r *big.Rat) bool {
+	_, ex := r.Float64()
+	return ex
+}
+
+func (f *flags) chk(r *big.Rat) *big.Rat {
+	if !exactRat(r) {
+		f.inexact = true
+	}
+	return r
+}
+
+func tagKey(t [][2]int64) string {
+	ss := make([]string, len(t))
+	for i, p := range t {
+		ss[i] = fmt.Sprintf("%d=%d", p[0], p[1])
+	}
+	return "{" + strings.Join(ss, ",") + "}"
+}
+
+func groupKey(n node, tags [][2]int64) [][2]int64 {
+	var res [][2]int64
+	for _, t := range tags {
+		listed := false
+		for _, l := range n.labels {
+			if int64(l) == t[0] {
+				listed = true
+			}
+		}
+		if listed != n.without {
+			res = append(res, t)
+		}
+	}
+	return res
+}
+
+func sortedPresent(col []*big.Rat) []*big.Rat {
+	var p []*big.Rat
+	for _, v := range col {
+		if v != nil {
+			p = append(p, v)
+		}
+	}
+	sort.Slice(p, func(i, j int) bool { return p[i].Cmp(p[j]) < 0 })
+	return p
+}
+
+func present(col []*big.Rat) []*big.Rat {
+	var p []*big.Rat
+	for _, v := range col {
+		if v != nil {
+			p = append(p, v)
+		}
+	}
+	return p
+}
+
+func ratInt(n int) *big.Rat { return big.NewRat(int64(n), 1) }
+
+func sqrtRat(r *big.Rat, f *flags) *big.Rat {
+	if r.Sign() < 0 {
+		f.inexact = true
+		return new(big.Rat)
+	}
+	n := new(big.Int).Sqrt(r.Num())
+	d := new(big.Int).Sqrt(r.Denom())
+	if new(big.Int).Mul(n, n).Cmp(r.Num()) != 0 || new(big.Int).Mul(d, d).Cmp(r.Denom()) != 0 {
+		f.inexact = true
+	}
+	return new(big.Rat).SetFrac(n, d)
+}
+
+// population variance with the exactness of every float step the code performs (mean, d*d/cnt, running sum)
+func variance(p []*big.Rat, f *flags) *big.Rat {
+	n := ratInt(len(p))
+	sum := new(big.Rat)
+	for _, v := range p {
+		sum = f.chk(new(big.Rat).Add(sum, v))
+	}
+	mean := f.chk(new(big.Rat).Quo(sum, n))
+	res := new(big.Rat)
+	for _, v := range p {
+		d := f.chk(new(big.Rat).Sub(v, mean))
+		dd := f.chk(new(big.Rat).Mul(d, d))
+		res = f.chk(new(big.Rat).Add(res, f.chk(new(big.Rat).Quo(dd, n))))
+	}
+	return res
+}
+
+// quantile of the present points: linear interpolation between the closest ranks of the sorted values
+func quantileDef(qn, qd int64, sorted []*big.Rat, f *flags) *big.Rat {
+	if len(sorted) == 0 {
+		return nil
+	}
+	q := big.NewRat(qn, qd)
+	ix := f.chk(new(big.Rat).Mul(q, ratInt(len(sorted)-1)))
+	i1 := int(new(big.Int).Quo(ix.Num(), ix.Denom()).Int64())
+	i2 := i1 + 1
+	if i2 > len(sorted)-1 {
+		i2 = len(sorted) - 1
+	}
+	frac := new(big.Rat).Sub(ix, ratInt(i1)) // position between the two ranks
+	a := f.chk(new(big.Rat).Mul(sorted[i1], f.chk(new(big.Rat).Sub(ratInt(i2), ix))))
+	w2 := f.chk(new(big.Rat).Sub(ratInt(1), new(big.Rat).Sub(ratInt(i2), ix)))
+	b := f.chk(new(big.Rat).Mul(sorted[i2], w2))
+	_ = frac
+	return f.chk(new(big.Rat).Add(a, b))
+}
+
+func aggDef(n node, col []*big.Rat, f *flags) *big.Rat {
+	p := present(col)
+	switch n.kind {
+	case "q":
+		return quantileDef(n.qn, n.qd, sortedPresent(col), f)
+	}
+	switch n.op {
+	case "count":
+		return ratInt(len(p))
+	}
+	if len(p) == 0 {
+		return nil
+	}
+	switch n.op {
+	case "sum", "avg":
+		s := new(big.Rat)
+		for _, v := range p {
+			s = f.chk(new(big.Rat).Add(s, v))
+		}
+		if n.op == "avg" {
+			return f.chk(s.Quo(s, ratInt(len(p))))
+		}
+		return s
+	case "min":
+		return sortedPresent(col)[0]
+	case "max":
+		return sortedPresent(col)[len(p)-1]
+	case "group":
+		return ratInt(1)
+	case "stdvar":
+		return variance(p, f)
+	case "stddev":
+		return sqrtRat(variance(p, f), f)
+	}
+	panic("agg op " + n.op)
+}
+
+type tsInfo struct {
+	times            []int64
+	startX, vs, ve   int
+	lod, step        int64
+}
+
+// the window of index r for range w: the engine's convention is that point i stands for [t[i], t[i+1]) and index 0 is a
+// guard point, so a window must start at an index >= 1.  strict: the widest window not wider than w; otherwise the
+// narrowest window at least w wide.  ok=false: no such window inside the fetched time scale (result missing).
+func windowDef(ts tsInfo, r int, w int64, strict bool) (l int, empty bool, ok bool) {
+	s := ts.lod
+	if r+1 < len(ts.times) {
+		s = ts.times[r+1] - ts.times[r]
+	}
+	width := func(l int) int64 { return ts.times[r] - ts.times[l] + s }
+	if strict {
+		if w < width(r) {
+			return r, true, r >= 1
+		}
+		l = r
+		for l-1 >= 0 && width(l-1) <= w {
+			l--
+		}
+		if width(l) == w {
+			return l, false, l >= 1
+		}
+		// narrower than w: the cursor accepts it only when one more point would exceed w, i.e. l-1 exists
+		return l, false, l >= 1
+	}
+	l = r
+	for l >= 0 && width(l) < w {
+		l--
+	}
+	return l, false, l >= 1
+}
+
+func otDef(n node, win []*big.Rat, f *flags) *big.Rat {
+	p := present(win)
+	if len(p) == 0 {
+		if n.kind == "ot" && n.op == "count" {
+			return ratInt(0)
+		}
+		return nil
+	}
+	if n.kind == "qot" {
+		return quantileDef(n.qn, n.qd, sortedPresent(win), f)
+	}
+	switch n.op {
+	case "count":
+		return ratInt(len(p))
+	case "last":
+		return p[len(p)-1]
+	case "stdvar":
+		return variance(p, f)
+	case "stddev":
+		return sqrtRat(variance(p, f), f)
+	}
+	return aggDef(node{kind: "agg", op: n.op}, win, f)
+}
+
+func hasPresentInView(ts tsInfo, s rser) bool {
+	for i := ts.vs; i < ts.ve && i < len(s.vals); i++ {
+		if s.vals[i] != nil {
+			return true
+		}
+	}
+	return false
+}
+
+func weightsDef(ts tsInfo, g []rser, f *flags) []*big.Rat {
+	allND := true
+	for _, s := range g {
+		var prev *big.Rat
+		for i := ts.vs; i < ts.ve; i++ {
+			if v := s.vals[i]; v != nil {
+				if prev != nil && v.Cmp(prev) < 0 {
+					allND = false
+				}
+				prev = v
+			}
+		}
+	}
+	w := make([]*big.Rat, len(g))
+	for i, s := range g {
+		if allND {
+			w[i] = new(big.Rat)
+			for j := ts.ve; j > 0; j-- {
+				if s.vals[j-1] != nil {
+					w[i] = s.vals[j-1]
+					break
+				}
+			}
+		} else {
+			acc := new(big.Rat)
+			for j := ts.vs; j < ts.ve; j++ {
+				if v := s.vals[j]; v != nil {
+					t := f.chk(new(big.Rat).Mul(v, v))
+					t = f.chk(t.Mul(t, big.NewRat(ts.lod, 1)))
+					acc = f.chk(new(big.Rat).Add(acc, t))
+				}
+			}
+			w[i] = acc
+		}
+	}
+	return w
+}
+
+func refApply(n node, ts tsInfo, in []rser, f *flags) []rser {
+	switch n.kind {
+	case "paren", "brk":
+		return in
+	case "agg", "q":
+		var order []string
+		groups := map[string][]rser{}
+		keys := map[string][][2]int64{}
+		for _, s := range in {
+			k := groupKey(n, s.tags)
+			ks := tagKey(k)
+			if _, ok := groups[ks]; !ok {
+				order = append(order, ks)
+				keys[ks] = k
+			}
+			groups[ks] = append(groups[ks], s)
+		}
+		var out []rser
+		for _, ks := range order {
+			g := groups[ks]
+			vals := make([]*big.Rat, len(ts.times))
+			for i := range ts.times {
+				col := make([]*big.Rat, len(g))
+				for j, s := range g {
+					col[j] = s.vals[i]
+				}
+				vals[i] = aggDef(n, col, f)
+			}
+			out = append(out, rser{tags: keys[ks], vals: vals})
+		}
+		return out
+	case "topk", "botk":
+		if n.k <= 0 {
+			return nil
+		}
+		var kept []rser
+		for _, s := range in {
+			if ts.vs == ts.ve || hasPresentInView(ts, s) {
+				kept = append(kept, s)
+			}
+		}
+		var order []string
+		groups := map[string][]rser{}
+		for _, s := range kept {
+			ks := tagKey(groupKey(n, s.tags))
+			if _, ok := groups[ks]; !ok {
+				order = append(order, ks)
+			}
+			groups[ks] = append(groups[ks], s)
+		}
+		var out []rser
+		for _, ks := range order {
+			g := groups[ks]
+			w := weightsDef(ts, g, f)
+			idx := make([]int, len(g))
+			for i := range idx {
+				idx[i] = i
+			}
+			sort.SliceStable(idx, func(a, b int) bool {
+				if n.kind == "topk" {
+					return w[idx[a]].Cmp(w[idx[b]]) > 0
+				}
+				return w[idx[a]].Cmp(w[idx[b]]) < 0
+			})
+			k := n.k
+			if k > len(g) {
+				k = len(g)
+			}
+			if k < len(g) && w[idx[k-1]].Cmp(w[idx[k]]) == 0 {
+				f.tie = true // which of the equally heavy series survives is the engine's free choice
+			}
+			for _, i := range idx[:k] {
+				out = append(out, g[i])
+			}
+		}
+		return out
+	case "ot", "qot":
+		strict := n.kind == "qot" || n.op == "sum" || n.op == "count" || n.op == "stddev" || n.op == "stdvar"
+		var out []rser
+		for _, s := range in {
+			vals := make([]*big.Rat, len(ts.times))
+			for r := range ts.times {
+				l, empty, ok := windowDef(ts, r, n.rng, strict)
+				if !ok {
+					continue
+				}
+				if empty {
+					vals[r] = otDef(n, nil, f)
+					continue
+				}
+				vals[r] = otDef(n, s.vals[l:r+1], f)
+			}
+			out = append(out, rser{tags: s.tags, vals: vals})
+		}
+		return out
+	}
+	panic("kind " + n.kind)
+}
+
+// ---------------------------------------------------------------- running the real engine
+
+type runResult struct {
+	err    error
+	ts     tsInfo
+	lines  []string            // canonical observation lines
+	series map[string][]float64 // tags → trimmed values
+	times  []int64             // trimmed times
+	capt   []capSeries
+	query  string
+	nq     int
+	inex   bool
+	replaced string
+}
+
+func fmtFloat(v float64) string {
 	if math.IsNaN(v) {
 		return "_"
 	}
-	return fmt.Sprint(v)
+	if math.IsInf(v, 1) {
+		return "inf"
+	}
+	if math.IsInf(v, -1) {
+		return "-inf"
+	}
+	return new(big.Rat).SetFloat64(v).RatString()
+}
+
+func fmtRat(v *big.Rat) string {
+	if v == nil {
+		return "_"
+	}
+	return v.RatString()
+}
+
+func tagsOf(d *promql.SeriesData) [][2]int64 {
+	var t [][2]int64
+	for id, tg := range d.Tags.ID2Tag {
+		if id == "__name__" {
+			continue
+		}
+		var idx int64 = -1
+		fmt.Sscanf(id, "%d", &idx)
+		t = append(t, [2]int64{idx, tg.Value})
+	}
+	sort.Slice(t, func(i, j int) bool { return t[i][0] < t[j][0] })
+	return t
+}
+
+func run(st *store, expr string, start, end, step, now int64) (res runResult) {
+	defer func() {
+		if p := recover(); p != nil {
+			res.err = fmt.Errorf("panic: %v", p)
+		}
+	}()
+	st.queries, st.last, st.lastQ, st.inexact = 0, nil, "", false
+	ng := promql.NewEngine(nil, 0)
+	v, cancel, t, replaced, err := promql.VerifC27Exec(ng, context.Background(), st, promql.Query{Start: start, End: end, Step: step, Expr: expr,
+		Options: promql.Options{TimeNow: now}})
+	if err != nil {
+		res.err = err
+		return res
+	}
+	defer cancel()
+	tsr, ok := v.(*promql.TimeSeries)
+	if !ok || len(t.LODs) != 1 {
+		res.err = fmt.Errorf("unexpected result %T lods=%d", v, len(t.LODs))
+		return res
+	}
+	res.replaced = replaced
+	res.ts = tsInfo{times: append([]int64(nil), t.Time...), startX: t.StartX, vs: t.ViewStartX, ve: t.ViewEndX, lod: t.LODs[0].Step, step: t.Step}
+	res.times = append([]int64(nil), tsr.Time...)
+	res.series = map[string][]float64{}
+	for i := range tsr.Series.Data {
+		d := &tsr.Series.Data[i]
+		vs := make([]string, len(*d.Values))
+		for j, x := range *d.Values {
+			vs[j] = fmtFloat(x)
+		}
+		k := tagKey(tagsOf(d))
+		res.lines = append(res.lines, k+" "+strings.Join(vs, " "))
+		res.series[k] = append([]float64(nil), *d.Values...)
+	}
+	sort.Strings(res.lines)
+	res.capt, res.query, res.nq, res.inex = st.last, st.lastQ, st.queries, st.inexact
+	return res
+}
+
+// index (bottom-up) of the chain node the evaluator replaced by the selector, -1 if none, -2 if it cannot be located
+func reducedUpto(replaced string, pre []string) int {
+	if replaced == "" {
+		return -1
+	}
+	for i, p := range pre {
+		if a, err := parser.ParseExpr(p); err == nil && a.String() == replaced {
+			return i
+		}
+	}
+	return -2
+}
+
+// ---------------------------------------------------------------- generator
+
+func genLabels(r *verifx.Rng) []int {
+	switch r.Pick(3, 3, 2, 1, 1) {
+	case 0:
+		return nil
+	case 1:
+		return []int{r.Range(1, 3)}
+	case 2:
+		a := r.Range(1, 3)
+		b := r.Range(1, 3)
+		if a == b {
+			return []int{a}
+		}
+		return []int{a, b}
+	case 3:
+		return []int{1, 2, 3}
+	}
+	return []int{0}
+}
+
+var aggOps = []string{"sum", "min", "max", "avg", "count", "group", "stddev", "stdvar"}
+var otOps = []string{"avg", "min", "max", "sum", "count", "stdvar", "stddev", "last"}
+
+func genRange(r *verifx.Rng, lod int64) int64 {
+	switch r.Pick(5, 2, 1, 1, 1) {
+	case 0:
+		return lod
+	case 1:
+		return 2 * lod
+	case 2:
+		return 3 * lod
+	case 3:
+		if lod > 1 {
+			return int64(r.Range(1, int(lod)-1))
+		}
+		return lod
+	}
+	return lod + int64(r.Range(1, int(lod)+1))
+}
+
+func genQ(r *verifx.Rng) (int64, int64) {
+	qs := [][2]int64{{0, 1}, {1, 4}, {1, 2}, {3, 4}, {1, 1}, {1, 8}}
+	q := qs[r.Intn(len(qs))]
+	return q[0], q[1]
+}
+
+func genNode(r *verifx.Rng, lod int64, bottom bool) node {
+	switch r.Pick(8, 2, 2, 6, 1) {
+	case 0:
+		return node{kind: "agg", op: aggOps[r.Intn(len(aggOps))], without: r.Chance(1, 3), labels: genLabels(r)}
+	case 1:
+		qn, qd := genQ(r)
+		return node{kind: "q", qn: qn, qd: qd, without: r.Chance(1, 3), labels: genLabels(r)}
+	case 2:
+		k := "topk"
+		if r.Bool() {
+			k = "botk"
+		}
+		return node{kind: k, k: r.Range(0, 3), without: r.Chance(1, 3), labels: genLabels(r)}
+	case 3:
+		return node{kind: "ot", op: otOps[r.Intn(len(otOps))], rng: genRange(r, lod), sub: !bottom || r.Chance(1, 4)}
+	}
+	qn, qd := genQ(r)
+	return node{kind: "qot", qn: qn, qd: qd, rng: genRange(r, lod), sub: !bottom || r.Chance(1, 4)}
+}
+
+// chain root first
+func genChain(r *verifx.Rng, lod int64) []node {
+	depth := r.Pick(0, 4, 5, 2)
+	var up []node // bottom-up
+	for i := 0; i < depth; i++ {
+		bottom := len(up) == 0
+		n := genNode(r, lod, bottom)
+		up = append(up, n)
+		if r.Chance(1, 6) {
+			up = append(up, node{kind: "paren"})
+		}
+		if r.Chance(1, 12) {
+			up = append(up, node{kind: "brk"})
+		}
+	}
+	if r.Chance(1, 8) {
+		up = append([]node{{kind: "brk"}}, up...)
+		// a matrix selector needs the bare selector below it
+		if len(up) > 1 && (up[1].kind == "ot" || up[1].kind == "qot") {
+			up[1].sub = true
+		}
+	}
+	chain := make([]node, len(up))
+	for i, n := range up {
+		chain[len(up)-1-i] = n
+	}
+	return chain
+}
+
+var explicitWhats = []string{"avg", "sum", "count", "min", "max", "sumsec", "countsec"}
+
+type scenario struct {
+	st               *store
+	start, end, now  int64
+	step             int64
+}
+
+func genScenario(r *verifx.Rng, metric *format.MetricMetaValue) scenario {
+	st := &store{metric: metric}
+	n := r.Range(1, 4)
+	seen := map[[3]int64]bool{}
+	for len(st.tags) < n {
+		t := [3]int64{int64(r.Range(1, 2)), int64(r.Range(1, 2)), int64(r.Range(1, 2))}
+		if !seen[t] {
+			seen[t] = true
+			st.tags = append(st.tags, t)
+		}
+	}
+	step := []int64{1, 1, 1, 5, 5, 15, 0, 10}[r.Intn(8)]
+	lod := step
+	if lod == 0 {
+		lod = 1
+	}
+	if lod == 10 {
+		lod = 5
+	}
+	points := int64(r.Range(5, 12))
+	base := int64(1_000_000 + 900*r.Range(0, 50))
+	start := base
+	if r.Chance(1, 4) {
+		start += int64(r.Range(1, int(lod)))
+	}
+	end := start + points*lod
+	// events: seconds from well before the start (ranges look back) up to the end
+	from := base - 4*lod*3
+	density := []int{1, 2, 3, 4}[r.Intn(4)] // out of 4
+	gapLo := from + int64(r.Intn(int(end-from)))
+	gapHi := gapLo + int64(r.Range(0, int(3*lod)))
+	for s := range st.tags {
+		for sec := from; sec < end; sec++ {
+			if sec >= gapLo && sec < gapHi {
+				continue
+			}
+			if r.Intn(4) < density {
+				k := int64(r.Range(-3, 20))
+				st.events = append(st.events, event{series: s, sec: sec, val: 5040 * k})
+			}
+		}
+	}
+	return scenario{st: st, start: start, end: end, now: end + int64(r.Range(1, 30)), step: step}
+}
+
+func storeOp(st *store) string {
+	tg := make([]string, len(st.tags))
+	for i, t := range st.tags {
+		tg[i] = fmt.Sprintf("%d:%d:%d", t[0], t[1], t[2])
+	}
+	ev := make([]string, len(st.events))
+	for i, e := range st.events {
+		ev[i] = fmt.Sprintf("%d:%d:%d", e.series, e.sec, e.val)
+	}
+	evs := "-"
+	if len(ev) != 0 {
+		evs = strings.Join(ev, ",")
+	}
+	return fmt.Sprintf("store tags=%s ev=%s", strings.Join(tg, ";"), evs)
+}
+
+func tsOp(ts tsInfo) string {
+	return fmt.Sprintf("ts step=%d lod=%d startx=%d vs=%d ve=%d times=%s", ts.step, ts.lod, ts.startX, ts.vs, ts.ve, verifx.List(ts.times))
+}
+
+func capToRef(c []capSeries) []rser {
+	out := make([]rser, len(c))
+	for i, s := range c {
+		vals := make([]*big.Rat, len(s.vals))
+		for j, v := range s.vals {
+			if !math.IsNaN(v) {
+				vals[j] = new(big.Rat).SetFloat64(v)
+			}
+		}
+		out[i] = rser{tags: s.tags, vals: vals}
+	}
+	return out
+}
+
+func refLines(ts tsInfo, ss []rser) []string {
+	var lines []string
+	for _, s := range ss {
+		if ts.vs != ts.ve && !hasPresentInView(ts, s) {
+			continue
+		}
+		vs := make([]string, 0, len(s.vals))
+		for _, v := range s.vals[ts.startX:] {
+			vs = append(vs, fmtRat(v))
+		}
+		lines = append(lines, tagKey(s.tags)+" "+strings.Join(vs, " "))
+	}
+	sort.Strings(lines)
+	return lines
+}
+
+func firstDiff(a, b []string) string {
+	for i := 0; i < len(a) || i < len(b); i++ {
+		var x, y string
+		if i < len(a) {
+			x = a[i]
+		}
+		if i < len(b) {
+			y = b[i]
+		}
+		if x != y {
+			return fmt.Sprintf("engine=[%s] definition=[%s]", x, y)
+		}
+	}
+	return ""
+}
+
+// reference result (definitions) for the engine-side nodes of chain above the storage answer captured in `real`
+func refFor(chain []node, real runResult, upto int) ([]string, flags) {
+	fl := flags{inexact: real.inex}
+	ss := capToRef(real.capt)
+	for i := len(chain) - 1 - (upto + 1); i >= 0; i-- {
+		ss = refApply(chain[i], real.ts, ss, &fl)
+	}
+	return refLines(real.ts, ss), fl
+}
+
+// the node to blame for a difference: the sub-expressions are run bottom-up on the real engine, the first one whose
+// result differs from its definition names the signature (falls back to the root)
+func blame(sc scenario, what string, chain []node, upto int) string {
+	for i := len(chain) - 1 - (upto + 1); i > 0; i-- {
+		sub := chain[i:]
+		expr, pre := chainStrings(what, sub)
+		real := run(sc.st, expr, sc.start, sc.end, sc.step, sc.now)
+		if real.err != nil || real.nq == 0 {
+			continue
+		}
+		u := reducedUpto(real.replaced, pre)
+		if u != upto {
+			continue
+		}
+		ref, _ := refFor(sub, real, u)
+		if firstDiff(real.lines, ref) != "" {
+			return sigOf(sub[0])
+		}
+	}
+	return sigOf(chain[0])
+}
+
+func sigOf(n node) string {
+	switch n.kind {
+	case "agg":
+		return "def-agg-" + n.op
+	case "q":
+		return "def-agg-quantile"
+	case "topk", "botk":
+		return "def-" + n.kind
+	case "ot":
+		return "def-" + n.op + "-over-time"
+	case "qot":
+		return "def-quantile-over-time"
+	}
+	return "def-" + n.kind
+}
+
+func defSigUnused(chain []node, upto int) string {
+	for i := len(chain) - 1 - (upto + 1); i >= 0; i-- {
+		n := chain[i]
+		switch n.kind {
+		case "agg":
+			return "def-agg-" + n.op
+		case "q":
+			return "def-agg-quantile"
+		case "topk", "botk":
+			return "def-" + n.kind
+		case "ot":
+			return "def-" + n.op + "-over-time"
+		case "qot":
+			return "def-quantile-over-time"
+		}
+	}
+	return "def-selector"
+}
+
+func withBrk(chain []node) []node {
+	c := append([]node(nil), chain...)
+	c = append(c, node{kind: "brk"})
+	if len(c) >= 2 {
+		n := c[len(c)-2]
+		if n.kind == "ot" || n.kind == "qot" {
+			n.sub = true
+			c[len(c)-2] = n
+		}
+	}
+	return c
+}
+
+func nonParen(chain []node) []node {
+	var c []node
+	for _, n := range chain {
+		if n.kind != "paren" {
+			c = append(c, n)
+		}
+	}
+	return c
+}
+
+// reduction oracle: which (rule shape, what) combinations are claimed to be result preserving, see checks/C27.py
+func reduceOracle(h *verifx.H, sc scenario, chain []node, real runResult, upto int, expr string) {
+	np := nonParen(chain)
+	if len(np) == 0 {
+		return
+	}
+	lod := real.ts.lod
+	// shape of the reduced part (bottom-up)
+	bottom := np[len(np)-1]
+	var shape, what string
+	reducedNodes := 0
+	// count non-paren nodes among the replaced ones
+	for i, seen := len(chain)-1, 0; i >= 0 && seen <= upto; i, seen = i-1, seen+1 {
+		if chain[i].kind != "paren" {
+			reducedNodes++
+		}
+	}
+	switch {
+	case reducedNodes == 1 && bottom.kind == "agg":
+		shape, what = "agg", bottom.op
+	case reducedNodes == 1 && bottom.kind == "ot":
+		shape, what = "over-time", bottom.op
+	case reducedNodes == 2 && bottom.kind == "ot":
+		shape, what = "agg-of-over-time", bottom.op
+		if np[len(np)-2].op != what {
+			return // mixed (sum∘count …): the rule blends the two `what`s by design, nothing exact to compare with
+		}
+	case reducedNodes == 2 && bottom.kind == "agg":
+		shape, what = "over-time-of-agg", bottom.op
+		if np[len(np)-2].op != what {
+			return
+		}
+	default:
+		return
+	}
+	switch shape {
+	case "agg":
+		// per-second normalised what: equal to the PromQL operator on one-second data only
+		if lod != 1 || real.ts.step > 1 {
+			return
+		}
+	case "over-time":
+		if bottom.rng != lod {
+			return
+		}
+	default:
+		// sum/min/max compose exactly; avg-of-avg and count-of-count are not the pooled value by definition
+		if what != "sum" && what != "min" && what != "max" {
+			return
+		}
+		for _, n := range np[len(np)-2:] {
+			if n.kind == "ot" && n.rng != lod {
+				return
+			}
+		}
+	}
+	if (shape != "agg" || what == "count") && reducedNodes != len(np) {
+		return // engine-side nodes above would run on another step in the comparison run
+	}
+	h.Stat("reduce.checked."+shape, 1)
+	// the same expression with the selector wrapped in (m + 0): no rule matches, the engine operators do the work
+	alt := withBrk(chain)
+	altExpr, _ := chainStrings("", alt)
+	altStep := real.ts.step
+	if shape != "agg" {
+		altStep = 1
+	}
+	ref := run(sc.st, altExpr, sc.start, sc.end, altStep, sc.now)
+	if ref.err != nil || ref.nq != 1 {
+		h.Note("reduce oracle: comparison run failed: %v", ref.err)
+		return
+	}
+	sig := fmt.Sprintf("reduce-%s-%s", shape, what)
+	shift := int64(0)
+	if shape != "agg" {
+		shift = lod - 1 // bucket [T, T+lod) of the reduced run = window ending at second T+lod-1 of the one-second run
+	}
+	refIdx := map[int64]int{}
+	for i, t := range ref.times {
+		refIdx[t] = i
+	}
+	keys := map[string]bool{}
+	for k := range real.series {
+		keys[k] = true
+	}
+	for k := range ref.series {
+		keys[k] = true
+	}
+	var ks []string
+	for k := range keys {
+		ks = append(ks, k)
+	}
+	sort.Strings(ks)
+	for _, k := range ks {
+		a, b := real.series[k], ref.series[k]
+		for i, t := range real.times {
+			if t < sc.start { // before the requested interval the two runs fetch different amounts of history
+				continue
+			}
+			j, ok := refIdx[t+shift]
+			if !ok {
+				continue
+			}
+			x, y := math.NaN(), math.NaN()
+			if a != nil {
+				x = a[i]
+			}
+			if b != nil {
+				y = b[j]
+			}
+			if what == "count" {
+				// count_over_time yields 0 where the engine sees no point; the storage has no row there
+				if math.IsNaN(x) {
+					x = 0
+				}
+				if math.IsNaN(y) {
+					y = 0
+				}
+			}
+			if fmtFloat(x) != fmtFloat(y) {
+				h.Viol(sig, "expr=%q step=%d start=%d end=%d series=%s t=%d pushed-down=%s engine-evaluated=%s (%q step=%d at t=%d) storage-query=[%s]",
+					expr, real.ts.step, sc.start, sc.end, k, t, fmtFloat(x), fmtFloat(y), altExpr, altStep, t+shift, real.query)
+				return
+			}
+		}
+	}
+}
+
+func evalCase(h *verifx.H, r *verifx.Rng, metric *format.MetricMetaValue) {
+	sc := genScenario(r, metric)
+	h.Op("%s", storeOp(sc.st))
+	lod := sc.step
+	if lod == 0 {
+		lod = 1
+	}
+	if lod == 10 {
+		lod = 5
+	}
+	h.Stat(fmt.Sprintf("step.%d", sc.step), 1)
+	nexpr := r.Range(1, 3)
+	for e := 0; e < nexpr; e++ {
+		var chain []node
+		var what, expr string
+		var pre []string
+		var real runResult
+		var upto int
+		var fl flags
+		var refOut []string
+		okCase := false
+		for try := 0; try < 30; try++ {
+			chain = genChain(r, lod)
+			what = ""
+			if r.Chance(1, 5) {
+				what = explicitWhats[r.Intn(len(explicitWhats))]
+			}
+			expr, pre = chainStrings(what, chain)
+			real = run(sc.st, expr, sc.start, sc.end, sc.step, sc.now)
+			if real.err != nil {
+				h.Stat("skip.error", 1)
+				h.Note("engine error for %q: %v", expr, real.err)
+				continue
+			}
+			if real.nq == 0 { // topk(0, …) never reaches the storage
+				upto = -1
+				fl = flags{}
+				refOut = nil
+				okCase = true
+				break
+			}
+			upto = reducedUpto(real.replaced, pre)
+			if upto == -2 {
+				h.Stat("skip.unmatched-reduction", 1)
+				continue
+			}
+			refOut, fl = refFor(chain, real, upto)
+			if fl.inexact {
+				h.Stat("skip.inexact", 1)
+				continue
+			}
+			if fl.tie {
+				h.Stat("skip.tie", 1)
+				continue
+			}
+			okCase = true
+			break
+		}
+		if !okCase {
+			h.Stat("skip.gave-up", 1)
+			continue
+		}
+		h.Op("%s", tsOp(real.ts))
+		h.Op("eval %s", chainTokens(what, chain))
+		h.Obs("n=%d", len(real.lines))
+		for _, l := range real.lines {
+			h.Obs("%s", l)
+		}
+		h.Note("expr %s | storage %s", expr, real.query)
+		// statistics and the non-trivial rule
+		for _, n := range chain {
+			switch n.kind {
+			case "agg", "ot":
+				h.Stat("node."+n.kind+"."+n.op, 1)
+			default:
+				h.Stat("node."+n.kind, 1)
+			}
+		}
+		if upto >= 0 {
+			h.Stat("reduced", 1)
+			h.NonTrivial("reduced")
+		}
+		missing := false
+		for _, l := range real.lines {
+			if strings.Contains(l, " _") {
+				missing = true
+			}
+		}
+		if missing && len(chain) > 0 {
+			h.Stat("with-missing-points", 1)
+			h.NonTrivial("missing")
+		}
+		// oracle 1: operators above the storage query compute their definitions
+		if real.nq != 0 {
+			if d := firstDiff(real.lines, refOut); d != "" {
+				h.Viol(blame(sc, what, chain, upto), "expr=%q step=%d start=%d end=%d now=%d %s storage-query=[%s]", expr, sc.step, sc.start, sc.end, sc.now, d, real.query)
+			}
+		}
+		// oracle 2: a pushed-down expression equals its engine-side evaluation
+		if upto >= 0 && what == "" {
+			reduceOracle(h, sc, chain, real, upto, expr)
+		}
+	}
+}
+
+func winCase(h *verifx.H, r *verifx.Rng) {
+	n := r.Range(0, 14)
+	t := make([]int64, n)
+	v := make([]float64, n)
+	vs := make([]string, n)
+	step := []int64{1, 5, 15, 60}[r.Intn(4)]
+	cur := int64(1000 * r.Range(1, 50))
+	for i := 0; i < n; i++ {
+		t[i] = cur
+		// coarser steps first, finer later (LODs only shrink towards the present)
+		s := step
+		if i < n/3 && r.Chance(1, 2) {
+			s = step * 4
+		}
+		cur += s
+		if r.Chance(1, 3) {
+			v[i] = math.NaN()
+			vs[i] = "_"
+		} else {
+			v[i] = 1
+			vs[i] = "1"
+		}
+	}
+	w := int64(r.Range(0, int(4*step)))
+	if r.Chance(1, 3) {
+		w = step * int64(r.Range(1, 4))
+	}
+	strict := r.Bool()
+	sb := 0
+	if strict {
+		sb = 1
+	}
+	h.Op("win w=%d step=%d strict=%d t=%s v=%s", w, step, sb, verifx.List(t), verifx.List(vs))
+	moves := 0
+	func() {
+		defer func() {
+			if p := recover(); p != nil {
+				h.Obs("panic")
+			}
+		}()
+		promql.VerifC27Window(t, v, w, step, strict, func(l, rr, cnt int) {
+			h.Obs("l=%d r=%d n=%d", l, rr, cnt)
+			moves++
+			// direct oracle: n is the number of present points of [l, r]
+			c := 0
+			for i := l; i <= rr; i++ {
+				if !math.IsNaN(v[i]) {
+					c++
+				}
+			}
+			if !strict && c != cnt {
+				h.Viol("window-count", "w=%d step=%d strict=%v t=%v v=%v l=%d r=%d n=%d present=%d", w, step, strict, t, vs, l, rr, cnt, c)
+			}
+		})
+	}()
+	h.Obs("end")
+	h.Stat("win.cases", 1)
+	if moves > 2 {
+		h.NonTrivial("window")
+	}
 }
 
 func main() {
-	m := &format.MetricMetaValue{MetricID: 1, Name: "m", Kind: format.MetricKindValue,
+	h := verifx.New()
+	metric := &format.MetricMetaValue{MetricID: 1, Name: "m", Kind: format.MetricKindValue,
 		Tags: []format.MetricMetaTag{{}, {Name: "a"}, {Name: "b"}, {Name: "c"}}}
-	if err := m.RestoreCachedInfo(); err != nil {
-		fmt.Println("meta:", err)
-	}
-	st := &store{metric: m,
-		tags: [][3]int64{{1, 1, 1}, {1, 2, 1}, {2, 1, 1}},
-		rows: []row{{0, 100, 2}, {0, 101, 4}, {1, 100, 10}, {1, 103, 30}, {2, 102, 7}, {0, 106, 3}, {1, 107, 5}, {0, 111, 1}}}
-	ng := promql.NewEngine(nil, 0)
-	for _, e := range os.Args[1:] {
-		for _, step := range []int64{1, 5} {
-			st.log = nil
-			v, cancel, err := ng.Exec(context.Background(), st, promql.Query{Start: 100, End: 115, Step: step, Expr: e,
-				Options: promql.Options{TimeNow: 120}})
-			if err != nil {
-				fmt.Println(e, "ERR", err)
-				continue
-			}
-			tsr := v.(*promql.TimeSeries)
-			fmt.Printf("%s step=%d time=%v log=%v\n", e, step, tsr.Time, st.log)
-			var lines []string
-			for _, d := range tsr.Series.Data {
-				var tg []string
-				for id, t := range d.Tags.ID2Tag {
-					tg = append(tg, fmt.Sprintf("%s/%s=%d%s", id, t.Name, t.Value, t.SValue))
-				}
-				sort.Strings(tg)
-				var vs []string
-				for _, x := range *d.Values {
-					vs = append(vs, fmtVal(x))
-				}
-				lines = append(lines, fmt.Sprintf("  {%s} %s", strings.Join(tg, ","), strings.Join(vs, " ")))
-			}
-			sort.Strings(lines)
-			fmt.Println(strings.Join(lines, "\n"))
-			cancel()
+	_ = metric.RestoreCachedInfo()
+	h.Cases(func(i int, r *verifx.Rng) {
+		if i%5 == 4 {
+			winCase(h, r)
+		} else {
+			evalCase(h, r, metric)
 		}
-	}
+	})
+	h.Done()
 }
